@@ -52,72 +52,74 @@ Spec == Init /\ [][Next]_vars
 (* ------------------------------------------------------------------ theorems *)
 Pair(i, j) == << F[i], F[j] >>
 BlockPairs == { <<i, j>> \in (1..NF) \X (1..NF) : i < j }
-XY(G, blk) == << Haps(G, 1, blk, P), Haps(G, 2, blk, P) >>
+AllPairs(Q(_)) == \A ij \in BlockPairs : Q(Pair(ij[1], ij[2]))
+(* Q(X, Y) for the haplotypes of every intersection block of the pair G *)
+AllBlocks(G, Q(_, _)) == \A blk \in Blocks(G) : Q(Haps(G, 1, blk, P), Haps(G, 2, blk, P))
 
-IdentityAt(G) ==
-    /\ \A blk \in Blocks(G) : LET r == ReportOf(G, blk, P) IN \A f \in r.sfF : r.sw = (r.sfmin - f) + 2 * f
-    /\ LET t == Totals(G, P) IN \A f \in t.sfF : t.sw = (t.sfmin - f) + 2 * f
-Identity == P = 2 => \A ij \in BlockPairs : IdentityAt(Pair(ij[1], ij[2]))
+IdRep_(r) == \A f \in r.sfF : r.sw = (r.sfmin - f) + 2 * f
+IdBlk_(X, Y) == IdRep_(BlockReport(X, Y, P))
+IdentityAt(G) == AllBlocks(G, IdBlk_) /\ IdRep_(Totals(G, P))
+Identity == P = 2 => AllPairs(IdentityAt)
 
-ZeroAt(G) ==
-    SameUpToLabels(G[1], G[2], P) =>
-        /\ \A blk \in Blocks(G) : LET r == ReportOf(G, blk, P) IN r.sw = 0 /\ r.ham = 0 /\ r.dg = 0 /\ r.sfmin = 0 /\ r.sfF = {0}
-        /\ LET t == Totals(G, P) IN t.sw = 0 /\ t.ham = 0 /\ t.dg = 0 /\ t.sfmin = 0 /\ t.sfF = {0}
-ZeroWhenSame == \A ij \in BlockPairs : ZeroAt(Pair(ij[1], ij[2]))
+ZeroRep_(r) == r.sw = 0 /\ r.ham = 0 /\ r.dg = 0 /\ r.sfmin = 0 /\ r.sfF = {0}
+ZeroBlk_(X, Y) == ZeroRep_(BlockReport(X, Y, P))
+ZeroAt(G) == SameUpToLabels(G[1], G[2], P) => (AllBlocks(G, ZeroBlk_) /\ ZeroRep_(Totals(G, P)))
+ZeroWhenSame == AllPairs(ZeroAt)
 
-HapChoiceAt(G) ==
-    \A blk \in Blocks(G) : LET X == XY(G, blk)[1] Y == XY(G, blk)[2] IN
-        /\ SwitchEnc(X[1]) = SwitchEnc(X[2]) /\ SwitchEnc(Y[1]) = SwitchEnc(Y[2])
-        /\ \A pi \in Perms2 : Ones(SwitchDiff(X[pi[1]], Y[1])) = Ones(SwitchDiff(X[1], Y[1]))
-        /\ DiploidSwitches(X, Y) = Ham(SwitchEnc(X[1]), SwitchEnc(Y[1]))
-HapChoiceIrrelevant == P = 2 => \A ij \in BlockPairs : HapChoiceAt(Pair(ij[1], ij[2]))
+HapChoiceBlk_(X, Y) ==
+    /\ SwitchEnc(X[1]) = SwitchEnc(X[2]) /\ SwitchEnc(Y[1]) = SwitchEnc(Y[2])
+    /\ \A pi \in Perms2 : Ones(SwitchDiff(X[pi[1]], Y[1])) = Ones(SwitchDiff(X[1], Y[1]))
+    /\ DiploidSwitches(X, Y) = Ham(SwitchEnc(X[1]), SwitchEnc(Y[1]))
+HapChoiceAt(G) == AllBlocks(G, HapChoiceBlk_)
+HapChoiceIrrelevant == P = 2 => AllPairs(HapChoiceAt)
 
-AgreementAt(G) ==
-    \A blk \in Blocks(G) : LET X == XY(G, blk)[1] Y == XY(G, blk)[2] IN
-        /\ LongestAgreement(X, Y) # {}
-        /\ \A v \in LongestAgreement(X, Y) : 2 * Zeros(v) = HammingUnits(X, Y, 2)
-AgreementIsHamming == P = 2 => \A ij \in BlockPairs : AgreementAt(Pair(ij[1], ij[2]))
+AgreementBlk_(X, Y) ==
+    /\ LongestAgreement(X, Y) # {}
+    /\ \A v \in LongestAgreement(X, Y) : 2 * Zeros(v) = HammingUnits(X, Y, 2)
+AgreementAt(G) == AllBlocks(G, AgreementBlk_)
+AgreementIsHamming == P = 2 => AllPairs(AgreementAt)
 
-BedIsSwitches == P = 2 => \A ij \in BlockPairs :
-    2 * Cardinality(SwitchPositions(Pair(ij[1], ij[2]))) = Totals(Pair(ij[1], ij[2]), 2).sw
+BedAt(G) == 2 * Cardinality(SwitchPositions(G)) = Totals(G, 2).sw
+BedIsSwitches == P = 2 => AllPairs(BedAt)
 
-GeneralAt(G) ==
-    \A blk \in Blocks(G) : LET X == XY(G, blk)[1] Y == XY(G, blk)[2] sf == DiploidSF(X, Y) IN
-        /\ PolySwitchesBF(X, Y, 2) = 2 * DiploidSwitches(X, Y)
-        /\ PolySFMinBF(X, Y, 2) = 2 * (sf.s + sf.f)
-        /\ 2 * sf.f \in PolySFFlipsBF(X, Y, 2)
-        /\ HammingUnits(X, Y, 2) = 2 * Min2(Ham(X[1], Y[1]), BlockLen(X) - Ham(X[1], Y[1]))
-GeneralIsDiploid == P = 2 => \A ij \in BlockPairs : GeneralAt(Pair(ij[1], ij[2]))
+GeneralBlkSF_(X, Y, sf, C) ==
+    /\ PolySwitchesBF(X, Y, 2) = 2 * DiploidSwitches(X, Y)
+    /\ PolySFMinOf_(C) = 2 * (sf.s + sf.f)
+    /\ 2 * sf.f \in PolySFFlipsOfC_(C)
+    /\ HammingUnits(X, Y, 2) = 2 * Min2(Ham(X[1], Y[1]), BlockLen(X) - Ham(X[1], Y[1]))
+GeneralBlk_(X, Y) == GeneralBlkSF_(X, Y, DiploidSF(X, Y), PolySFCostsBF(X, Y, 2))
+GeneralAt(G) == AllBlocks(G, GeneralBlk_)
+GeneralIsDiploid == P = 2 => AllPairs(GeneralAt)
 
-DPAt(G) ==
-    \A blk \in Blocks(G) : LET X == XY(G, blk)[1] Y == XY(G, blk)[2] IN
-        /\ PolySwitchesDP(X, Y, P) = PolySwitchesBF(X, Y, P)
-        /\ PolySFMinDP(X, Y, P) = PolySFMinBF(X, Y, P)
-        /\ PolySFFlipsDP(X, Y, P) = PolySFFlipsBF(X, Y, P)
-DPIsBruteForce == \A ij \in BlockPairs : DPAt(Pair(ij[1], ij[2]))
+DPBlkC_(X, Y, C, m) ==
+    /\ PolySwitchesDP(X, Y, P) = PolySwitchesBF(X, Y, P)
+    /\ SFMinOfM_(m) = PolySFMinOf_(C)
+    /\ SFFlipsOfMM_(m) = PolySFFlipsOfC_(C)
+DPBlk_(X, Y) == DPBlkC_(X, Y, PolySFCostsBF(X, Y, P), MinSwGivenFlips(X, Y, P))
+DPAt(G) == AllBlocks(G, DPBlk_)
+DPIsBruteForce == AllPairs(DPAt)
 
 Separating(h, i, j) == SumOver(DOMAIN h, [sp \in DOMAIN h |-> IF (i \in sp) # (j \in sp) THEN h[sp] ELSE 0])
-MultiwaySums == (P = 2 /\ NF >= 3) =>
-    LET h == MultiHist(F) IN
+MultiwayH_(h) ==
     /\ SumOver(DOMAIN h, h) = MultiCompared(F)
     /\ \A sp \in DOMAIN h : 1 \notin sp /\ h[sp] >= 1
     /\ \A ij \in BlockPairs : 2 * Separating(h, ij[1], ij[2]) <= Totals(Pair(ij[1], ij[2]), 2).sw
     /\ (\A f \in 1..NF : \A s \in DOMAIN F[f] : F[f][s].b > 0) =>
           \A ij \in BlockPairs : Blocks(Pair(ij[1], ij[2])) = Blocks(F) =>
               2 * Separating(h, ij[1], ij[2]) = Totals(Pair(ij[1], ij[2]), 2).sw
+MultiwaySums == (P = 2 /\ NF >= 3) => MultiwayH_(MultiHist(F))
 
 (* everything the command reports, as a function of the tuple of phasings *)
+AgreeZeros_(G, B) == UNION { { <<blk, Zeros(v)>> : v \in LongestAgreement(Haps(G, 1, blk, 2), Haps(G, 2, blk, 2)) } : blk \in B }
+PairMetrics_(G, B) ==
+    [tot |-> TotalsB_(G, B, P),
+     largest |-> { ReportOf(G, blk, P) : blk \in LongestOf(B) },
+     blocks |-> Reports(G, B, P),
+     bed |-> IF P = 2 THEN SwitchPositionsB_(G, B) ELSE {},
+     agreeZeros |-> IF P = 2 THEN AgreeZeros_(G, B) ELSE {}]
+PairMetrics(G) == PairMetrics_(G, Blocks(G))
 Metrics(H) ==
-    [ pairs |-> [ij \in BlockPairs |->
-                    LET G == << H[ij[1]], H[ij[2]] >> IN
-                    [tot |-> Totals(G, P),
-                     largest |-> { ReportOf(G, blk, P) : blk \in Longest(G) },
-                     blocks |-> [blk \in Blocks(G) |-> ReportOf(G, blk, P)],
-                     bed |-> IF P = 2 THEN SwitchPositions(G) ELSE {},
-                     agreeZeros |-> IF P = 2
-                                    THEN UNION { { <<blk, Zeros(v)>> : v \in LongestAgreement(Haps(G, 1, blk, 2), Haps(G, 2, blk, 2)) }
-                                                 : blk \in Blocks(G) }
-                                    ELSE {}]],
+    [ pairs |-> [ij \in BlockPairs |-> PairMetrics(<< H[ij[1]], H[ij[2]] >>)],
       multi |-> IF P = 2 /\ NF >= 3 THEN MultiHist(H) ELSE << >> ]
 RelistInvariant == [][Len(F'[1]) = Len(F[1]) => Metrics(F') = Metrics(F)]_vars
 =============================================================================
